@@ -319,7 +319,7 @@ class Program:
                             factory = kw.value
                         elif kw.arg == "metadata":
                             metadata = kw.value
-                        elif kw.arg in ("compare", "hash", "init"):
+                        elif kw.arg in ("compare", "hash", "init", "repr"):
                             try:
                                 flags[kw.arg] = ast.literal_eval(kw.value)
                             except Exception:
